@@ -261,48 +261,59 @@ def _validate_types(nodes: dict[str, HyperNode], nx_graph: nx.DiGraph) -> None:
 
     Only called when strict_types=True.
     """
+    # The graph links a consumer to the first producer of a name only; with
+    # several (exclusive or ordered) producers every one of them can deliver
+    # the value, so every one of them is checked against the consumer.
+    producers: dict[str, list[str]] = {}
+    for node in nodes.values():
+        for output in node.data_outputs:
+            producers.setdefault(output, []).append(node.name)
+
+    checked: list[tuple[str, str, str]] = []
     for source_name, target_name, edge_data in nx_graph.edges(data=True):
         if edge_data.get("edge_type") == "ordering":
             continue  # emit/wait_for: no value reaches a parameter, nothing to type
-        value_names = edge_data.get("value_names")
-        if not value_names:
-            continue
+        for value_name in edge_data.get("value_names") or ():
+            checked.append((source_name, target_name, value_name))
+            for other in producers.get(value_name, ()):
+                if other not in (source_name, target_name):
+                    checked.append((other, target_name, value_name))
 
+    for source_name, target_name, value_name in checked:
         source_node = nodes[source_name]
         target_node = nodes[target_name]
 
-        for value_name in value_names:
-            # Get types using universal capability methods
-            output_type = source_node.get_output_type(value_name)
-            input_type = target_node.get_input_type(value_name)
+        # Get types using universal capability methods
+        output_type = source_node.get_output_type(value_name)
+        input_type = target_node.get_input_type(value_name)
 
-            # Check for missing annotations
-            if output_type is None:
-                raise GraphConfigError(
-                    f"Missing type annotation in strict_types mode\n\n"
-                    f"  -> Node '{source_name}' output '{value_name}' has no type annotation\n\n"
-                    f"How to fix:\n"
-                    f"  Add type annotation: def {source_name}(...) -> ReturnType"
-                )
+        # Check for missing annotations
+        if output_type is None:
+            raise GraphConfigError(
+                f"Missing type annotation in strict_types mode\n\n"
+                f"  -> Node '{source_name}' output '{value_name}' has no type annotation\n\n"
+                f"How to fix:\n"
+                f"  Add type annotation: def {source_name}(...) -> ReturnType"
+            )
 
-            if input_type is None:
-                raise GraphConfigError(
-                    f"Missing type annotation in strict_types mode\n\n"
-                    f"  -> Node '{target_name}' parameter '{value_name}' has no type annotation\n\n"
-                    f"How to fix:\n"
-                    f"  Add type annotation: def {target_name}({value_name}: YourType) -> ReturnType"
-                )
+        if input_type is None:
+            raise GraphConfigError(
+                f"Missing type annotation in strict_types mode\n\n"
+                f"  -> Node '{target_name}' parameter '{value_name}' has no type annotation\n\n"
+                f"How to fix:\n"
+                f"  Add type annotation: def {target_name}({value_name}: YourType) -> ReturnType"
+            )
 
-            # Check type compatibility
-            if not is_type_compatible(output_type, input_type):
-                raise GraphConfigError(
-                    f"Type mismatch between nodes\n\n"
-                    f"  -> Node '{source_name}' output '{value_name}' has type: {output_type}\n"
-                    f"  -> Node '{target_name}' input '{value_name}' expects type: {input_type}\n\n"
-                    f"How to fix:\n"
-                    f"  Either change the type annotation on one of the nodes, or add a\n"
-                    f"  conversion node between them."
-                )
+        # Check type compatibility
+        if not is_type_compatible(output_type, input_type):
+            raise GraphConfigError(
+                f"Type mismatch between nodes\n\n"
+                f"  -> Node '{source_name}' output '{value_name}' has type: {output_type}\n"
+                f"  -> Node '{target_name}' input '{value_name}' expects type: {input_type}\n\n"
+                f"How to fix:\n"
+                f"  Either change the type annotation on one of the nodes, or add a\n"
+                f"  conversion node between them."
+            )
 
 
 # =============================================================================
